@@ -439,6 +439,9 @@ def one_pass(prop, tie, exe, seed, n, tier, outdir, replay=None):
     res = {"harness_rc": rc, "harness_wall_s": round(dt, 1)}
     if rc != 0:
         res["harness_output"] = out[-3000:]
+        cur = os.path.join(outdir, "current_case.ops")
+        if os.path.exists(cur):
+            res["crash_case"] = [l for l in open(cur, errors="replace").read().split("\n") if l and not l.startswith("#")]
     if tie.get("driver_exe"):
         drc, derr, ddt = run_driver(tie, os.path.join(outdir, "ops.txt"), os.path.join(outdir, "model.out"))
         res["driver_rc"] = drc
@@ -530,6 +533,13 @@ def check(pid, tier, seed, replay_path, replay_tie=None):
                 if pr["harness_rc"] != 0:
                     corr_broken.append({"tie": tie["name"], "why": "harness run failed (rc=%d)" % pr["harness_rc"],
                                         "output": pr.get("harness_output", "")[-1500:]})
+                    if pr.get("crash_case"):
+                        # the process died (or hung) inside this case: that case is the failing input
+                        any_fail_input.append({"case": -1, "sig": "harness-crash", "tie": tie["name"],
+                                               "ops": pr["crash_case"],
+                                               "desc": "the process running the real code %s while executing this case: %s" % (
+                                                   "hung (timeout)" if pr["harness_rc"] == 124 else "died (rc=%d)" % pr["harness_rc"],
+                                                   " ".join(pr.get("harness_output", "")[-400:].split()))})
                 if pr.get("driver_rc", 0) != 0:
                     corr_broken.append({"tie": tie["name"], "why": "model driver failed (rc=%d)" % pr["driver_rc"],
                                         "output": pr.get("driver_output", "")})
@@ -586,6 +596,8 @@ def check(pid, tier, seed, replay_path, replay_tie=None):
                     shutil.rmtree(od, ignore_errors=True)
                     one_pass(prop, tie, exe, seed, 0, tier, od, rp)
                     a = analyse(tie, od, nt_prefixes)
+                    if sig == "harness-crash":
+                        return os.path.exists(os.path.join(od, "current_case.ops"))
                     if sig == "monitor-reject":
                         return bool(a["mismatches"])
                     return any(x["sig"] == sig for x in a["oracle_fails"])
